@@ -47,11 +47,11 @@ RULE = ("E1: Blast/SVDMimo/GMDMimo on every shape 1<=Nt<=Nr<=4 (all families) an
         "1,1e-2,..,1e-8 for the filter relations.  A case is non-trivial when the scheme has to undo "
         "a channel that is not a multiple of the identity (Nr*Nt>1); distinct = distinct "
         "(scheme, channel form, family, member, shape, block count).  "
-        "E3: ONE object per scheme, every history <= depth 4 (thorough 5) over {set_channel_matrix(3 channels "
-        "incl. another shape and a 1-D form), set_noise_var(None|0.0|0.5|0.01) where the scheme has it, encode, "
+        "E3: ONE object per scheme, every history <= depth 4 (thorough 5) over {set_channel_matrix(3-4 channels: "
+        "complex128, real float64 of another shape, int64, 1-D forms), set_noise_var(None|0.0|0.5|0.01) where the scheme has it, encode, "
         "decode, calc_linear_SINRs(0.05|2), calc_SINRs(0.05), _calc_precoder(ch), _calc_receive_filter(ch, None|0.05), invalid calls (negative noise variance, channel of a shape the scheme rejects, data length not a multiple of the layers: what they do is only recorded as outcomes; afterwards the model is re-synchronised from the channel / noise variance the object reports and the object is judged as usual)}; in every state decode(H_cur @ encode(d)) == d when the current noise variance is 0/None, "
         "encode/decode agree with a freshly built object of the current (channel, noise_var), Blast/MRC decode "
-        "equals sqrt(Nt) W_MMSE(H_cur, noise_cur) y from the harness SVD, Nr/Nt/layers follow the current channel; "
+        "equals sqrt(Nt) W_MMSE(H_cur, noise_cur) y from the harness SVD, Nr/Nt/layers follow the current channel, three consecutive encode/decode rounds without touching the channel all agree, the held channel and the array handed to the setter stay bit-identical; "
         "Also FIVE live objects (2 Blast, GMDMimo, SVDMimo, MRC) used alternately, every sequence <= depth 3 "
         "(thorough 4) of {set_noise_var(0.5|None), set_channel_matrix(other), encode+decode+calc_SINRs} on any of "
         "them; afterwards every object must still recover its data / equal a lone object of its own configuration; "
@@ -109,6 +109,19 @@ def channel_items(tier):
                 for g in (1.0, 1e-9, 1e6):
                     for s in range(Ss // 2):
                         yield ("neartied%d@%g" % (pi, g), s, g * tied_channel(s, (nr, nt), prof))
+    # dtype presentations of the channel: real float64 / float32, int64 and complex64 (for a real array
+    # ndarray.conjugate() returns the array itself, integer arrays cannot be scaled in place, ...)
+    Sd = 8 if thorough else 2
+    for (nr, nt) in shapes() + [(5, 4), (6, 6)]:
+        for s in range(Sd):
+            R = F.generic(s, (nr, nt), False, tag=45)
+            yield ("real_f64", s, R)
+            yield ("real_f32", s, R.astype(np.float32))
+            yield ("int64", s, np.rint(4 * R).astype(np.int64))
+            yield ("complex64", s, F.generic(s, (nr, nt), True, tag=45).astype(np.complex64))
+        if nr * nt <= (6 if thorough else 4):
+            for i, Hi in enumerate(F.small_entry_matrices((nr, nt), (0, 1, -1))):
+                yield ("rint3", i, Hi.real.astype(np.int64))
     # larger arrays, Nr in 5..6 (thorough ..8): generic and nearly dependent members only.  The GMD
     # permutation bookkeeping (and any per-column loop) only shows its full behaviour for Nt >= 5.
     Sb = 60 if thorough else 24
@@ -143,8 +156,22 @@ def fam_scale(fam):
     return float(fam.split("@")[1]) if "@" in fam else 1.0
 
 
-def data_vec(L):
+DTYPE_FAMS = ("real_f64", "real_f32", "int64", "complex64", "rint3")
+DKINDS = ("c128", "f64", "i64")
+
+
+def data_vec(L, kind="c128"):
+    """distinguishable symbols: complex128, real float64 or int64 presentation"""
+    if kind == "f64":
+        return 1.0 + np.arange(L) / 8.0 * np.where(np.arange(L) % 2, -1.0, 1.0)
+    if kind == "i64":
+        return (np.arange(L, dtype=np.int64) + 1) * np.where(np.arange(L) % 3 == 1, -1, 1)
     return F.distinguishable(L, tag=41)
+
+
+def eps_factor(H):
+    """tolerances are relative to the precision of the channel's dtype (2^-23 for 32-bit floats)"""
+    return 2.0 ** 29 if np.asarray(H).dtype in (np.float32, np.complex64) else 1.0
 
 
 def shape_class(nr, nt):
@@ -196,16 +223,21 @@ def run_roundtrip(chk, case):
     nr, nt = H.shape
     kappa = case["kappa"]
     cls = shape_class(nr, nt)
+    CR = C_RT * eps_factor(H)
+    dkind = case.get("dkind", "c128")
     chk.outcome("scheme_shape", (scheme, form, nr, nt))    # recorded before the library is called: a
-    with chk.guard((scheme, cls), case):                   # crashing scheme is a violation, not vacuity
+    chk.outcome("dtypes", (scheme, H.dtype.name, dkind))   # crashing scheme is a violation, not vacuity
+    with chk.guard((scheme, cls), case):
         chk.count("eval_roundtrip")
-        obj = make_scheme(scheme, form, H)
+        passed = np.array(H[:, 0] if (form == "1d" and scheme == "MRC") else (H[0, :] if form == "1d" else H))
+        passed0 = passed.copy()
+        obj = getattr(__import__("pyphysim.mimo.mimo", fromlist=["x"]), scheme)(passed)
         layers = obj.getNumberOfLayers()
         want_layers = nt if scheme in ("Blast", "SVDMimo", "GMDMimo") else 1
         if layers != want_layers:
             chk.fail((scheme, "layers"), case, observed=layers, expected=want_layers)
         L = (2 * nblk) if scheme == "Alamouti" else layers * nblk
-        d = data_vec(L)
+        d = data_vec(L, dkind)
         d0 = d.copy()
         x = obj.encode(d)
         if not np.array_equal(d, d0):
@@ -220,28 +252,50 @@ def run_roundtrip(chk, case):
         chk.count("eval_energy")
         if L == 0 and x.shape[1] != 0:
             chk.fail((scheme, "encode_shape", "empty_block"), case, observed=x.shape, expected=(nt, 0))
-        if L and not N.close(e_tx, e_d, 1.0, C_RT):
+        if L and not N.close(e_tx, e_d, 1.0, CR):
             chk.fail((scheme, "tx_energy"), case, observed=e_tx, expected=e_d,
                      msg="mean transmitted energy per channel use != mean symbol energy "
                          "(ratio %.6g)" % (e_tx / e_d))
-        y = H @ x                                   # noise-free channel
-        r = obj.decode(y)
-        r = np.asarray(r)
-        if not N.close(r, d, kappa, C_RT):
-            how = classify_mismatch(r, d)
-            chk.fail((scheme, "roundtrip", cls, how), case,
-                     observed=r if r.size <= 8 else r[:8], expected=d if d.size <= 8 else d[:8],
-                     msg="max err %.3g, kappa %.3g" % (N.err(r, d), kappa))
+        y = H.astype(complex) @ x                   # noise-free channel (harness arithmetic in complex128)
+        y0 = y.copy()
+        r = None
+        # three consecutive rounds over the SAME object and channel (no setter in between): every round must
+        # return the data, and neither the array handed to the object, nor the channel it holds, nor y may change
+        for rnd in ((1, 2, 3) if (nblk == 1 or case["fam"] in DTYPE_FAMS) else (1,)):
+            r = np.asarray(obj.decode(y))
+            if not N.close(r, d, kappa, CR):
+                how = classify_mismatch(r, d.astype(complex))
+                chk.fail((scheme, "roundtrip", cls, how, "decode_round_%d" % rnd), case,
+                         observed=r if r.size <= 8 else r[:8], expected=d if d.size <= 8 else d[:8],
+                         msg="max err %.3g, kappa %.3g" % (N.err(r, d), kappa))
+                break
+            held = np.asarray(obj._channel)
+            if not (np.array_equal(passed, passed0) and passed.dtype == passed0.dtype):
+                chk.fail((scheme, "channel_argument_modified", "decode_round_%d" % rnd), case,
+                         observed=passed, expected=passed0)
+                break
+            if held.shape != (nr, nt) or not np.array_equal(held, H):
+                chk.fail((scheme, "held_channel_modified", "decode_round_%d" % rnd), case, observed=held, expected=H)
+                break
+            if not np.array_equal(y, y0):
+                chk.fail((scheme, "received_data_modified", "decode_round_%d" % rnd), case)
+                break
+            if rnd < 3 and L:
+                x2 = np.asarray(obj.encode(d))
+                if not np.array_equal(x2, x):
+                    chk.fail((scheme, "encode_changes_between_rounds", "round_%d" % (rnd + 1)), case,
+                             observed=N.err(x2, x), expected=0)
+                    break
         if nblk == 1 and scheme != "Alamouti":
-            check_pair(chk, case, obj, scheme, H, kappa, layers)
+            check_pair(chk, case, obj, scheme, H, kappa, layers, CR)
         if nblk == 1:
-            check_aliasing(chk, case, scheme, form, H, d, r, kappa)
+            check_aliasing(chk, case, scheme, form, H, d, r, kappa, CR)
         chk.outcome("uses", (scheme, x.shape[1]))
         if nr * nt > 1:
-            chk.nontriv((scheme, form, case["fam"], case["member"], nr, nt, nblk))
+            chk.nontriv((scheme, form, case["fam"], case["member"], nr, nt, nblk, dkind))
 
 
-def check_aliasing(chk, case, scheme, form, H, d, r_ref, kappa):
+def check_aliasing(chk, case, scheme, form, H, d, r_ref, kappa, CR=C_RT):
     """the scheme must not modify its channel, data or received samples, must accept read-only and
     Fortran-ordered arguments, and decoding twice must give the same"""
     for how in ("F", "C_readonly", "Tview_readonly"):
@@ -263,7 +317,7 @@ def check_aliasing(chk, case, scheme, form, H, d, r_ref, kappa):
                 # make_scheme copies; hand the very array over so that aliasing is really exercised
                 obj.set_channel_matrix(Hh)
             x = np.asarray(obj.encode(dd))
-            y = np.array(H @ x, order="F" if how == "F" else "C")
+            y = np.array(H.astype(complex) @ x, order="F" if how == "F" else "C")
             if how != "F":
                 y.setflags(write=False)
             y0 = y.copy()
@@ -277,11 +331,11 @@ def check_aliasing(chk, case, scheme, form, H, d, r_ref, kappa):
             chk.fail((scheme, "aliasing", "mutates_argument", how), cs)
         if not np.array_equal(r1, r2, equal_nan=True):
             chk.fail((scheme, "aliasing", "second_decode_differs", how), cs, observed=r2[:6], expected=r1[:6])
-        if not N.close(r1, r_ref, kappa, C_RT):
+        if not N.close(r1, r_ref, kappa, CR):
             chk.fail((scheme, "aliasing", "layout_changes_result", how), cs, observed=N.err(r1, r_ref), expected=0)
 
 
-def check_pair(chk, case, obj, scheme, H, kappa, layers):
+def check_pair(chk, case, obj, scheme, H, kappa, layers, CR=C_RT):
     """the linear precoder / receive-filter pair the scheme advertises (used by calc_SINRs):
     ||W||_F^2 == 1 (power split), G_H H W == I_layers, encode(d) == W X"""
     nr, nt = H.shape
@@ -292,17 +346,17 @@ def check_pair(chk, case, obj, scheme, H, kappa, layers):
         chk.fail((scheme, "precoder_shape"), case, observed=W.shape, expected=(nt, layers))
         return
     pw = float(np.sum(np.abs(W) ** 2))
-    if not N.close(pw, 1.0, 1.0, C_RT):
+    if not N.close(pw, 1.0, 1.0, CR):
         chk.fail((scheme, "precoder_power"), case, observed=pw, expected=1.0,
                  msg="||_calc_precoder(H)||_F^2 != 1")
     G = np.asarray(G)
     eq = (G * (H @ W)) if G.ndim == 0 else (G @ H @ W)
-    if not N.close(eq, np.eye(layers), kappa, C_RT):
+    if not N.close(eq, np.eye(layers), kappa, CR):
         chk.fail((scheme, "filter_precoder_pair"), case, observed=N.err(eq, np.eye(layers)), expected=0,
                  msg="_calc_receive_filter(H,0) . H . _calc_precoder(H) != I")
     d = data_vec(layers)
     x = np.asarray(obj.encode(d))
-    if not N.close(x, W @ d.reshape(layers, 1), 1.0, C_RT):
+    if not N.close(x, W @ d.reshape(layers, 1), 1.0, CR):
         chk.fail((scheme, "encode_vs_precoder"), case, observed=N.err(x, W @ d.reshape(layers, 1)),
                  expected=0, msg="encode(d) != _calc_precoder(H) @ d")
 
@@ -418,22 +472,25 @@ def run_item(chk, fam, member, H):
         return
     full_rank = nt <= nr and sv[-1] > 1e-12 * sv[0]
     kappa = float(sv[0] / sv[-1]) if full_rank else math.inf
-    in_bound = full_rank and kappa <= KAPPA_MAX * (1 + 1e-6)     # kappa itself carries rounding
+    low_prec = eps_factor(H) > 1           # 32-bit channels: only kappa <= 1e2 leaves a meaningful tolerance
+    in_bound = full_rank and kappa <= (1e2 if low_prec else KAPPA_MAX) * (1 + 1e-6)   # kappa carries rounding
     if nt <= nr:
         if not full_rank:
             chk.count("excluded_rank_deficient")
         elif not in_bound:
             chk.count("excluded_kappa_above_1e4")
     base = {"fam": fam, "member": member, "H": H}
-    if in_bound:
+    if in_bound and not low_prec:
         run_filters(chk, dict(base, part="filters", kappa=kappa))
+    dkinds = DKINDS if fam in DTYPE_FAMS else DKINDS[:1]
     for scheme, form in schemes_for(nr, nt):
         scalar_equiv = scheme in ("Alamouti", "MRT")
         if not scalar_equiv and not in_bound:
             continue
         for nblk in (0, 1, 2, 3):              # 0 blocks: an empty data vector is a multiple of the layers too
-            run_roundtrip(chk, dict(base, part="roundtrip", scheme=scheme, form=form, nblk=nblk,
-                                    kappa=1.0 if scalar_equiv else kappa))
+            for dk in (dkinds if nblk == 2 else dkinds[:1]):     # real / integer data at two blocks
+                run_roundtrip(chk, dict(base, part="roundtrip", scheme=scheme, form=form, nblk=nblk, dkind=dk,
+                                        kappa=1.0 if scalar_equiv else kappa))
 
 
 # ----------------------------------------------------------------------
@@ -444,19 +501,19 @@ HAS_NOISE = ("Blast", "MRC", "SVDMimo", "GMDMimo")
 
 
 def hist_channels(scheme):
-    """three channels per scheme: a base one, one of another shape, one of the same shape with other
-    values (given in the scheme's alternative 1-D form where it has one)"""
+    """three channels per scheme: a complex128 base one, a REAL float64 one of another shape, and an
+    int64 one (real float64 in the scheme's alternative 1-D form where it has one)"""
+    def ints(s, shape):
+        return np.rint(4 * F.generic(s, shape, False, tag=42)).astype(np.int64)
+
     if scheme in ("Blast", "SVDMimo", "GMDMimo"):
-        return [F.generic(1, (3, 2), True, tag=42), F.generic(2, (2, 2), True, tag=42),
-                F.generic(3, (3, 2), True, tag=42)]
+        return [F.generic(1, (3, 2), True, tag=42), F.generic(2, (2, 2), False, tag=42), ints(3, (3, 2))]
     if scheme == "MRC":
-        return [F.generic(1, (3, 1), True, tag=42), F.generic(2, (2, 1), True, tag=42),
-                F.generic(3, (3,), True, tag=42)]
+        return [F.generic(1, (3, 1), True, tag=42), ints(2, (2, 1)), F.generic(3, (3,), False, tag=42)]
     if scheme == "MRT":
-        return [F.generic(1, (1, 3), True, tag=42), F.generic(2, (1, 2), True, tag=42),
-                F.generic(3, (3,), True, tag=42)]
-    return [F.generic(1, (2, 2), True, tag=42), F.generic(2, (3, 2), True, tag=42),
-            F.generic(3, (2,), True, tag=42)]                   # Alamouti
+        return [F.generic(1, (1, 3), True, tag=42), F.generic(2, (1, 2), False, tag=42), ints(3, (3,))]
+    return [F.generic(1, (2, 2), True, tag=42), F.generic(2, (3, 2), False, tag=42),
+            F.generic(3, (2,), False, tag=42), ints(4, (2, 2))]                   # Alamouti
 
 
 def as2d(scheme, h):
@@ -466,7 +523,7 @@ def as2d(scheme, h):
 
 
 def hist_events(scheme):
-    ev = [("chan", i) for i in range(3)]
+    ev = [("chan", i) for i in range(len(hist_channels(scheme)))]
     if scheme in HAS_NOISE:
         ev += [("noise", v) for v in NOISE_ALPH]
     ev += [("encode",), ("decode",)]
@@ -493,6 +550,7 @@ class HState:
         self.err = None
         self.Hrep = None        # channel REPORTED by the object after an invalid call, when it is not chans[ch]
         self.invalid = []       # outcomes of the invalid calls of this history (never judged as such)
+        self.passed = None      # (array object handed to the constructor / setter, copy of its content)
 
 
 def cur_H(scheme, st):
@@ -535,11 +593,15 @@ def hist_build(scheme, hist):
     try:
         for ev in hist:
             if ev[0] == "new":
-                st.obj = getattr(M, scheme)(None if ev[1] is None else np.array(chans[ev[1]]))
+                arr = None if ev[1] is None else np.array(chans[ev[1]])
+                st.obj = getattr(M, scheme)(arr)
                 st.ch = ev[1]
+                st.passed = None if arr is None else (arr, arr.copy())
             elif ev[0] == "chan":
-                st.obj.set_channel_matrix(np.array(chans[ev[1]]))
+                arr = np.array(chans[ev[1]])
+                st.obj.set_channel_matrix(arr)
                 st.ch, st.Hrep = ev[1], None
+                st.passed = (arr, arr.copy())
             elif ev[0] == "noise":
                 st.obj.set_noise_var(ev[1])
                 st.noise = 0.0 if ev[1] is None else ev[1]
@@ -669,6 +731,31 @@ def hist_invariant(chk, scheme, hist, st):
             if not N.close(r, want, k2, C_MMSE):
                 chk.fail((scheme, "history", "decode_not_filter_of_current_channel_and_noise", when), case,
                          observed=r[:6], expected=want[:6], msg="current noise_var=%r" % st.noise)
+        # rounds 2 and 3 over the same object WITHOUT touching the channel in between; after every round the
+        # channel the object holds and the array that was handed to it must be bit-identical to what was set
+        for rnd in (1, 2, 3):
+            if rnd > 1:
+                xk = np.asarray(obj.encode(d))
+                rk = np.asarray(obj.decode(y))
+                if not np.array_equal(xk, x):
+                    chk.fail((scheme, "history", "encode_changes_between_rounds", when), dict(case, round=rnd),
+                             observed=N.err(xk, x), expected=0)
+                    break
+                if not N.close(rk, rf, k2, C_RT) or (zf and not N.close(rk, d, kappa, C_RT)):
+                    chk.fail((scheme, "history", "decode_round_%d_wrong" % rnd, when), dict(case, round=rnd),
+                             observed=rk[:6], expected=rf[:6],
+                             msg="round %d over the same object and channel; max err %.3g" % (rnd, N.err(rk, rf)))
+                    break
+            held = np.asarray(obj._channel)
+            if held.shape != H2.shape or held.dtype != H2.dtype or not np.array_equal(held, H2):
+                chk.fail((scheme, "history", "held_channel_modified_by_decode", when), dict(case, round=rnd),
+                         observed=held, expected=H2)
+                break
+            if st.passed is not None and st.Hrep is None and not (
+                    np.array_equal(st.passed[0], st.passed[1]) and st.passed[0].dtype == st.passed[1].dtype):
+                chk.fail((scheme, "history", "channel_argument_modified", when), dict(case, round=rnd),
+                         observed=st.passed[0], expected=st.passed[1])
+                break
         # the SINR reports are a function of the current channel and their explicit argument only
         # (evaluated last: they may themselves populate caches of a changed implementation)
         for v in (0.05, 2.0):
